@@ -1,6 +1,6 @@
 #!/bin/bash
 # tools/verify_seed.sh <seed_dir> <name> <property> : confirm a seeded change in a scratch worktree and keep it
-sd=$1; name=$2; prop=$3
+sd=$(realpath $1); name=$2; prop=$3
 wt=/tmp/vs_$name
 git -C /repo worktree remove --force $wt 2>/dev/null
 git -C /repo worktree add -q --detach $wt HEAD || exit 2
@@ -13,6 +13,6 @@ d1=$(run_demo)
 git -C /repo worktree remove --force $wt
 echo "demo pristine rc=$d0  demo patched rc=$d1  tests: $tests"
 if [[ $d0 == 0 && $d1 != 0 && $tests == *"45 passed"* ]]; then
-  mkdir -p /verif/seeded/$name; cp $sd/patch.diff $demo /verif/seeded/$name/; [ -f $sd/notes.md ] && cp $sd/notes.md /verif/seeded/$name/
+  mkdir -p /verif/seeded/$name; [ "$sd" = "/verif/seeded/$name" ] || cp $sd/patch.diff $demo /verif/seeded/$name/; [ -f $sd/notes.md ] && cp $sd/notes.md /verif/seeded/$name/
   echo CONFIRMED
 else echo "NOT CONFIRMED"; fi
